@@ -149,33 +149,32 @@ def FlightOK (cfg : Cfg) (st : State) (T : Int) (fl : Flight) : Prop :=
 def SInv (cfg : Cfg) (s : SState) (T : Int) : Prop :=
   CacheOK s.st T ∧ ∀ fl ∈ s.flights, FlightOK cfg s.st T fl
 
-/-- Well-formed split histories: the clock does not run backwards, removals name a port, and the persistence call of a
-removal may be separated from its cache invalidation only if the cache is invalidated again afterwards (`popAfter`). -/
-def sOpOK (cfg : Cfg) (T : Int) : SOp → Prop
+/-- Well-formed split histories: the clock does not run backwards and removals name a port. -/
+def sOpOK (T : Int) : SOp → Prop
   | .atomic op => opOK T op
   | .getBegin _ _ now _ => T ≤ now
   | .getFetch _ => True
   | .getEnd _ => True
   | .delBegin _ => True
-  | .delExec pids _ _ => cfg.popAfter = true ∧ pids ≠ []
+  | .delExec pids _ _ => pids ≠ []
 
 def sOpTime (T : Int) : SOp → Int
   | .atomic op => opTime T op
   | .getBegin _ _ now _ => now
   | _ => T
 
-def SMonotone (cfg : Cfg) : Int → List SOp → Prop
+def SMonotone : Int → List SOp → Prop
   | _, [] => True
-  | T, op :: ops => sOpOK cfg T op ∧ SMonotone cfg (sOpTime T op) ops
+  | T, op :: ops => sOpOK T op ∧ SMonotone (sOpTime T op) ops
 
-instance (cfg : Cfg) (T : Int) (op : SOp) : Decidable (sOpOK cfg T op) := by
+instance (T : Int) (op : SOp) : Decidable (sOpOK T op) := by
   cases op <;> unfold sOpOK <;> infer_instance
 
-instance decSMonotone (cfg : Cfg) : (T : Int) → (ops : List SOp) → Decidable (SMonotone cfg T ops)
+instance decSMonotone : (T : Int) → (ops : List SOp) → Decidable (SMonotone T ops)
   | _, [] => isTrue trivial
   | T, op :: ops =>
-    have := decSMonotone cfg (sOpTime T op) ops
-    inferInstanceAs (Decidable (sOpOK cfg T op ∧ SMonotone cfg (sOpTime T op) ops))
+    have := decSMonotone (sOpTime T op) ops
+    inferInstanceAs (Decidable (sOpOK T op ∧ SMonotone (sOpTime T op) ops))
 
 theorem opTime_ge (T : Int) (op : Op) (h : opOK T op) : T ≤ opTime T op := by
   cases op <;> simp only [opOK, opTime] at * <;> omega
@@ -263,8 +262,8 @@ theorem cacheDrop_ok (st : State) (pids : List Nat) (T : Int) (hok : CacheOK st 
   exact hok pid t v h2
 
 /-- **The invariant for overlapping operations.** -/
-theorem sStep_inv (cfg : Cfg) (hr : cfg.repaired = true) (hl : cfg.lateDict = false) (h0 : 0 ≤ cfg.minAge)
-    (s : SState) (T : Int) (hinv : SInv cfg s T) (op : SOp) (hop : sOpOK cfg T op) :
+theorem sStep_inv (cfg : Cfg) (hr : cfg.repaired = true) (hl : cfg.lateDict = false) (hpa : cfg.popAfter = true)
+    (h0 : 0 ≤ cfg.minAge) (s : SState) (T : Int) (hinv : SInv cfg s T) (op : SOp) (hop : sOpOK T op) :
     SInv cfg (sStep cfg s op).1 (sOpTime T op) := by
   obtain ⟨hok, hfl⟩ := hinv
   cases op with
@@ -342,20 +341,20 @@ theorem sStep_inv (cfg : Cfg) (hr : cfg.repaired = true) (hl : cfg.lateDict = fa
     exact flights_step cfg s.st _ T T (Int.le_refl _) pids s.flights (fun _ => rfl) (fun _ _ _ _ => rfl) h0 hfl
   | delExec pids frm to =>
     simp only [sOpOK] at hop
-    simp only [sStep, sOpTime, hop.1, if_true]
-    refine ⟨hRemove_ok s.st pids frm to T hop.2 hok, ?_⟩
+    simp only [sStep, sOpTime, hpa, if_true]
+    refine ⟨hRemove_ok s.st pids frm to T hop hok, ?_⟩
     show ∀ fl ∈ orphanFlights pids s.flights, FlightOK cfg (hRemove s.st pids frm to) T fl
     apply flights_step cfg s.st (hRemove s.st pids frm to) T T (Int.le_refl _) pids s.flights (fun _ => rfl) _ h0 hfl
     intro pid hp t ht
-    exact (hRemove_untouched s.st pids frm to pid T hop.2 hp).newest t ht
+    exact (hRemove_untouched s.st pids frm to pid T hop hp).newest t ht
 
-theorem sRun_inv (cfg : Cfg) (hr : cfg.repaired = true) (hl : cfg.lateDict = false) (h0 : 0 ≤ cfg.minAge)
-    (ops : List SOp) (s : SState) (T : Int) (hinv : SInv cfg s T) (hm : SMonotone cfg T ops) :
+theorem sRun_inv (cfg : Cfg) (hr : cfg.repaired = true) (hl : cfg.lateDict = false) (hpa : cfg.popAfter = true)
+    (h0 : 0 ≤ cfg.minAge) (ops : List SOp) (s : SState) (T : Int) (hinv : SInv cfg s T) (hm : SMonotone T ops) :
     ∃ T', SInv cfg (sRun cfg s ops).1 T' := by
   induction ops generalizing s T with
   | nil => exact ⟨T, hinv⟩
   | cons op ops ih =>
-    have h1 := sStep_inv cfg hr hl h0 s T hinv op hm.1
+    have h1 := sStep_inv cfg hr hl hpa h0 s T hinv op hm.1
     obtain ⟨T', h2⟩ := ih (sStep cfg s op).1 (sOpTime T op) h1 hm.2
     exact ⟨T', h2⟩
 
